@@ -342,6 +342,8 @@ def c12(k, ctx):
             ctx.nontrivial_keys.add(k.key("N", r["i"]))
     ctx.extra["chain_configurations_run"] = sum(1 for r in recs if r["e"] == "Run")
     ctx.extra["noise_llrs"] = sum(r["N"] for r in recs if r["e"] == "Noise" and r["o"] == "ok")
+    ctx.extra["noise_runs_by_number_of_workers_that_delivered_frames"] = {str(w): sum(1 for r in recs if r["e"] == "Noise" and r["o"] == "ok" and r["workers"] == w)
+                                                                             for w in sorted({r["workers"] for r in recs if r["e"] == "Noise" and r["o"] == "ok"})}
     ctx.samples = [k.sample_case(recs, 10), [{kk: v for kk, v in r.items() if kk not in ("nx", "li")} for r in recs if r["e"] == "Noise"][:1],
                    [{kk: v for kk, v in r.items() if kk not in ("nx", "li")} for r in recs if r["e"] == "Frame" and r["cfg"]["usep"] and r["cfg"]["useil"]][:1]]
     ctx.assumptions = ["TLC 1.8 + Json/IOUtils", "the injected decoder only records (length, exact-zero positions, sign pattern) and answers by script; it never sees the message",
